@@ -8,6 +8,28 @@
   Quantification: all `n ≥ 0`, all `n_chunks = k ≥ 1` (including `k` larger than the number of pairs),
   all chunk indices `0 ≤ c < k`, all metrics, all lists of chunk files.
 -/
+/-
+  CLAUSE MAP (property text -> theorem)
+  1.  chunks pairwise disjoint .............................. C07_partition (2nd conjunct)
+  2.  together cover every pair i>j exactly once ............ C07_partition (flatMap = enumeration; ∃! chunk per pair) + C07_enumeration
+                                                              (the enumeration IS the pairs j<i<n, no repetition, n(n-1)/2 of them)
+  3.  sizes differ by at most one ........................... C07_balanced (+ C07_contiguous, C07_no_error: never raises, also k > #pairs)
+  4.  compute independently, save, load, combine in any order, chunk repeated -> complete matrix
+                                                              C07_assemble (any list containing every index, any order, any repeats)
+      save/load .............................................. harness-only: h5py container fidelity (identity on the filled prefix is an
+                                                              assumption, exercised incl. the int-width boundaries 127..257)
+  5.  ... symmetric, zero diagonal ........................... C07_assemble (denseAt symmetric, diagonal 0, toDense = denseSpec)
+  6.  ... same as a single-chunk computation ................. C07_assemble (last conjunct)
+  7.  (i,j) entry = metric of the two samples' predictions ... C07_assemble_metric, C07_assemble_mse; every stored value: C07_pipeline_wellformed
+      predictions themselves / aliasing of prediction arrays . harness-only: predict_viability is C09's; array aliasing has no functional model
+  8.  metric symmetric, non-negative, zero on identical ...... C07_mse_metric over ℝ;  IEEE rounding of np.mean/expit: harness-only
+  9.  a matrix missing any pair refuses to be densified ...... pipeline matrices (any subset/order/repeats of chunk files): C07_pipeline_wellformed
+                                                              (complete IFF no pair missing, else to_dense raises), C07_incomplete_refuses;
+                                                              arbitrary matrices: C07_missing_pair_refuses under Nodup, which
+                                                              C07_pipeline_wellformed discharges for everything calculate/concat can build;
+                                                              C07_count_only_witness shows the hypothesis is needed for hand-made objects
+  Not modelled (optional storage-level refinement not done): the numpy storage arrays / _expand_storage; see props/C07.json note.
+-/
 import Batchie.Lemmas.ChunksAssemble
 import Batchie.Lemmas.ChunksMetric
 
@@ -206,6 +228,41 @@ theorem C07_missing_pair_refuses {α : Type} [OfNat α 0] (R : CDM α) (hnd : R.
   have h := incomplete_of_missing R hnd hsub (i, j) (mem_lowerTri.2 ⟨h0, h1, h2⟩) hmiss
   exact ⟨h, toDense_of_incomplete R h⟩
 
+/-- **The hypotheses of `C07_missing_pair_refuses` hold for every matrix the pipeline can produce**, and completeness is
+    exactly "no pair is missing": for ANY non-empty list of valid chunk indices (any subset of the chunks, any order, any
+    repetitions) `calculate` + `concat` succeeds with a matrix `R` of size `n` whose stored pairs are distinct, lie in the lower
+    triangle, are exactly the union of the listed chunks, each with the metric of its pair as value; `R` is complete IFF every
+    pair `j < i < n` is stored, and otherwise `to_dense` raises. -/
+theorem C07_pipeline_wellformed {α : Type} [OfNat α 0] (n k : Int) (hn : 0 ≤ n) (hk : 1 ≤ k) (m : Int → Int → α)
+    (c₀ : Int) (cs : List Int) (hvalid : ∀ c ∈ c₀ :: cs, 0 ≤ c ∧ c < k) :
+    ∃ R : CDM α, assemble n k m (c₀ :: cs) = .ok R ∧ R.size = n ∧ R.keys.Nodup ∧
+      (∀ p ∈ R.keys, p ∈ lowerTri R.size) ∧
+      (∀ p, p ∈ R.keys ↔ ∃ c ∈ c₀ :: cs, p ∈ chunkPairs n c k) ∧
+      (∀ e ∈ R.entries, e.2.2 = m e.1 e.2.1) ∧
+      (R.isComplete = true ↔ ∀ p ∈ lowerTri n, p ∈ R.keys) ∧
+      (R.isComplete = false → R.toDense = .error .valueError) := by
+  obtain ⟨hnd, hkeys, hent⟩ := assembled_spec n k m c₀ cs
+  let R : CDM α := { size := n, entries := assembled n k m (chunkEntries n c₀ k m) cs }
+  have hsub : ∀ p ∈ R.keys, p ∈ lowerTri R.size := by
+    intro p hp
+    obtain ⟨c, _, hpc⟩ := (hkeys p).1 hp
+    exact chunkPairs_subset n c k hpc
+  refine ⟨R, assemble_ok n k m hk c₀ cs hvalid, rfl, hnd, hsub, hkeys, fun e he => (hent e he).2, ?_,
+    fun h => toDense_of_incomplete R h⟩
+  constructor
+  · intro hc p hp
+    by_contra hmiss
+    have := incomplete_of_missing R hnd hsub p hp hmiss
+    rw [hc] at this
+    cases this
+  · intro hall
+    have hlen := length_eq_of_nodup_of_subset_subset hnd (nodup_lowerTri n) (fun p hp => hsub p hp) (fun p hp => hall p hp)
+    have hl := length_lowerTri n hn
+    simp only [CDM.isComplete, beq_iff_eq]
+    have e : R.entries.length = (keysOf R.entries).length := by simp [keysOf]
+    rw [e, hlen]
+    exact hl
+
 /-- why `Nodup` is a hypothesis above: `is_complete` only COUNTS entries (`current_index == N`) and
     `add_value`'s "already calculated" tests are vacuous, so a hand-built matrix (not reachable through
     calculate/save/load/concat, which never duplicate) with a repeated pair and a missing pair counts as
@@ -256,6 +313,11 @@ example : (∀ c ∈ [2, 0, 1, 2, 0], (0 : Int) ≤ c ∧ c < 3) ∧ (∀ c : In
 
 example : (assemble 4 3 (fun i j => i * 10 + j) [2, 0, 1, 2, 0]).bind CDM.toDense =
     .ok [[0, 10, 20, 30], [10, 0, 21, 31], [20, 21, 0, 32], [30, 31, 32, 0]] := by decide
+
+/-- `C07_pipeline_wellformed` on a proper subset with a repeat (n = 4, k = 3, chunks 2, 0, 2): not complete -/
+example : (∀ c ∈ (2 : Int) :: [0, 2], (0 : Int) ≤ c ∧ c < 3) ∧
+    ((assemble 4 3 (fun i j => i * 10 + j) [2, 0, 2]).toOption.map (fun R => (R.keys, R.isComplete))) =
+      some ([(3, 1), (3, 2), (1, 0), (2, 0)], false) := by decide
 
 /-- hypotheses of `C07_incomplete_refuses`: n = 4, k = 3, chunk 1 missing and non-empty -/
 example : (∀ c ∈ [2, 0, 2], (0 : Int) ≤ c ∧ c < 3) ∧ (1 : Int) ∉ [2, 0, 2] ∧ chunkPairs 4 1 3 ≠ [] := by decide
